@@ -75,6 +75,7 @@ type Exec struct {
 }
 
 func NewExec(p *Program, w *World, prefix string) *Exec {
+	w.ModPath = p.ModPath
 	readonlyCallee = func(fn *types.Func) bool {
 		fi := p.ByObj[fn]
 		if fi == nil {
@@ -850,6 +851,12 @@ func (x *Exec) setFieldPath(cur Term, t types.Type, path []int, v Term) (Term, b
 	}
 	f := st.Field(path[0])
 	if len(path) == 1 {
+		if ft, ok := x.W.Field(cur, f.Name()); ok && ft.Sort != v.Sort {
+			v = x.coerce(v, ft.Sort)
+			if v.Sort != ft.Sort {
+				v = x.opaqueFrom(v, ft.Sort)
+			}
+		}
 		return x.W.WithField(cur, f.Name(), v)
 	}
 	inner, ok := x.W.Field(cur, f.Name())
